@@ -44,7 +44,7 @@ def run(chk, repo: Repo):
     chk.rule("C17-R4", "noise-type and boundary-condition chains refuse unknown values", floor=4)
     chk.rule("C17-R5", "get_components returns (self.model, self.data, info filled from self)", floor=1)
     chk.rule("C17-R6", "PSF sample grids are centred on the kernel origin: for both parities of the size N the grid is N consecutive integers with "
-                       "its zero at index N // 2 (the origin of scipy's convolve1d and of the padded 'valid' convolution)", floor=7)
+                       "its zero at index N // 2 (the origin of scipy's convolve1d and of the padded 'valid' convolution); the defocus support is the closed disc (mask d2 > R**2)", floor=7)
     _r6(chk, repo)
     _r6_defocus_support(chk, repo)
     chk.rule("C17-R7", "optional arguments of the shipped problems (data, noise level, sizes, ...) are defaulted with `is None`, never by truthiness "
